@@ -1,6 +1,7 @@
 """C05 — allocation failure is reported and never corrupts the document (fault enumeration)."""
 import random
-import vlib, histcheck, jsonchecks
+import vlib, histcheck, jsonchecks, gen_json
+from gen_json import hx
 
 LEVEL = "fault_enumeration"
 
@@ -100,9 +101,67 @@ def check(run):
         for c in (crash, crash2):
             if c:
                 run.violation(f"C05: library crashed / sanitizer report under an allocation failure (geometry {defs}): {c[:300]}",
-                              dict(kind="history", cfg=cfg, defines=defs, harness_src="hist_h", lines=[c.split("\n")[0][:5000]], observed=c[-3000:]))
+                              dict(kind="history", cfg=cfg, defines=defs, harness_src="hist_h", lines=[c.split("\n")[0].split(": ", 1)[-1][:20000]], observed=c[c.find("\n"):][-3000:]))
         run.sample(dict(geometry=defs, case=lines[0][:300] if lines else ""))
-    run.cov["rule"] = ("for each of %d histories per geometry (45 operations on 2 documents incl. deserializeJson, copies between documents, document copy/swap/shrink) with N "
+    # ---- deserialization scenarios (the input generators of C01 / C09): every failure position of every input ----
+    from props import C09
+    ndes = 400 if thorough else 60
+    texts = [t for _, t in jsonchecks.valid_docs(rnd, ndes, max_depth=3) if len(t) < 400]
+    mps = []
+    while len(mps) < ndes:
+        v = C09.rand_value(rnd, depth=2)
+        enc = C09.encode_tracking(v, rnd, {})
+        if 2 <= len(enc) <= 400:
+            mps.append(enc)
+    # strings repeated and then outgrown (the deserializer's scratch buffer is kept for a duplicate, then must grow)
+    for w in (b"id", b"name", b"k"):
+        mps.append(b"\x92\x82" + bytes([0xa0 + len(w)]) + w + b"\x01\xa1v" + bytes([0xa0 + len(w)]) + w + b"\x82" + bytes([0xa0 + len(w)]) + w + b"\x02\xab" + w + b"-longer-key" [: 11 - len(w)] + b"\x03")
+        texts.append(b'[{"%s":1,"v":"%s"},{"%s":2,"%s-much-longer-key-than-before":"%s"}]' % (w, w, w, w, w * 9))
+    ndes_runs = 0
+    for defs in ({}, {"ARDUINOJSON_POOL_CAPACITY": 4, "ARDUINOJSON_INITIAL_POOL_COUNT": 1}):
+        impl = vlib.need_harness("doc_h", cfg, defs)
+        scen = [("JF", t) for t in texts] + [("MF", m) for m in mps]
+        filt = ["-" if rnd.random() < 0.7 else hx(gen_json.filters(rnd).encode()) for _ in scen]
+        base_lines = [f"{c} 10 {f} - {hx(x)}" for (c, x), f in zip(scen, filt)]
+        base, bcrash = vlib.run_sharded(impl, base_lines, None, 900, ["CFG " + cfg])
+        jobs, lines = [], []
+        for si, ((c, x), f, b) in enumerate(zip(scen, filt, base)):
+            if b == "<crash>":
+                continue
+            n = int(b.split(" calls=")[1].split(" ")[0])
+            ks = list(range(n))
+            if not thorough and len(ks) > 24:
+                ks = sorted(rnd.sample(ks, 24))
+            for k in ks:
+                for fs in (str(k), f"{k}+"):
+                    jobs.append((si, fs))
+                    lines.append(f"{c} 10 {f} {fs} {hx(x)}")
+        outs, fcrash = vlib.run_sharded(impl, lines, None, 1800, ["CFG " + cfg])
+        ndes_runs += len(lines)
+        for (si, fs), line, o in zip(jobs, lines, outs):
+            run.count(("deser", str(defs), si, fs))
+            if o == "<crash>":
+                continue
+            b = base[si]
+            code, dump_ = o.split(" ")[0], o.split(" ")[1]
+            bcode, bdump = b.split(" ")[0], b.split(" ")[1]
+            ov = " ov=1" in o
+            if "afterclear=0" not in o or "leaked=0" not in o or "MISUSE" in o or "NOT-REUSABLE" in o or "MEASURE-DIFFERS" in o or "READONLY-ALLOCATES" in o:
+                oracle_fail.append((cfg, line, "well-formed document; all memory returned on clear()/destruction, no block released twice, usable after clear()", o[-160:] + f" [geometry {defs}]"))
+            elif (code, dump_) != (bcode, bdump) and code != "NoMemory":
+                oracle_fail.append((cfg, line, f"the failure-free result {bcode} {bdump[:120]} or NoMemory", o[:200] + f" [geometry {defs}]"))
+            elif code == "NoMemory" and not ov and bcode != "NoMemory":
+                oracle_fail.append((cfg, line, "overflowed() set when NoMemory is reported", o[:200]))
+            elif code == "Ok" and ov:
+                oracle_fail.append((cfg, line, "Ok is not reported after a failed allocation (overflowed() is set)", o[:200]))
+        for c in (bcrash, fcrash):
+            if c:
+                run.violation(f"C05: library crashed / sanitizer report while deserializing under an allocation failure (geometry {defs}): {c[:300]}",
+                              dict(kind="input", cfg=cfg, defines=defs, harness_src="doc_h", lines=[c.split("\n")[0].split(": ", 1)[-1][:20000]], observed=c[c.find("\n"):][-3000:]))
+    run.cov["rule"] = ("[deserialization] %d JSON texts and %d MessagePack inputs (C01 / C09 generators, filters on 30%%) x every single-failure position and every fail-from "
+                       "position (%d failing runs, 2 geometries): no crash or sanitizer report; the result is the failure-free one or NoMemory with overflowed() set; "
+                       "the document can be traversed, measured and serialized; clear() returns every block; reusable; nothing leaks or is released twice; " % (len(texts), len(mps), ndes_runs))
+    run.cov["rule"] += ("for each of %d histories per geometry (45 operations on 2 documents incl. deserializeJson, copies between documents, document copy/swap/shrink) with N "
                        "allocator calls: every single-failure position k and every fail-from-k schedule (quick: at most 40 positions per history) plus random positions; "
                        "%d failing runs; oracles: no crash/sanitizer report; at the first operation that departs from the failure-free run overflowed() is set and the operation "
                        "does not claim success; handles unrelated to its target keep their value; after the history clear() returns every block, the document works again, "
@@ -116,6 +175,9 @@ def replay(rp):
     bad = 0
     for l in rp.get("lines", []):
         io, crash = vlib.run_lines(h, ["CFG " + cfg, l])
+        if l.split(" ")[0] in ("JF", "MF"):
+            h = vlib.need_harness("doc_h", cfg, rp.get("defines"))
+            io, crash = vlib.run_lines(h, ["CFG " + cfg, l])
         print("run:", l[:1500])
         print(" impl:", (io[1] if len(io) > 1 else io)[-2500:])
         if crash:
